@@ -256,6 +256,37 @@ def run_case(case, ctx):
                 D3 = numpy.array(ag3.get_TransitionDipoleMoment().data, dtype=float)
             ctx.check("unit-independent", float(numpy.max(numpy.abs(H3 - H))), 1e-7 * scale, dict(det, other_unit=unit, other_build_ctx=bctx))
             ctx.check("unit-independent", float(numpy.max(numpy.abs(D3 - D))), 1e-12 * float(numpy.max(numpy.abs(dip))), dict(det, other_unit=unit, what="dipoles"))
+        # --- the SAME aggregate and molecules after the program changed their parameters and rebuilt: the operators follow the molecules as
+        #     they are at build time, whichever public route changed them (set_energy in a units context; the elenergies property, which
+        #     holds internal units; set_dipole; set_resonance_coupling)
+        route = ["set_energy", "elenergies-assign", "mixed"][(case["seed"] // 6) % 3]
+        E2 = [float(e) * (1.0 + 0.013 * (k + 1)) + 37.0 for k, e in enumerate(case["E"])]
+        dip2 = dip[::-1].copy() * 1.25 if N > 1 else dip * 0.5
+        J2 = numpy.array(case["J"]) * -0.75
+        with ctx.lib("Aggregate rebuild after the molecules changed (" + route + ")"):
+            for k in range(N):
+                mk = agg.monomers[k]
+                how = route if route != "mixed" else ["set_energy", "elenergies-assign"][k % 2]
+                if how == "set_energy":
+                    with qr.energy_units("1/cm"):
+                        mk.set_energy(1, E2[k])
+                else:
+                    mk.elenergies = numpy.array([0.0, U.e_to_int(E2[k], "1/cm")])
+                mk.set_dipole(0, 1, [float(x) for x in dip2[k]])
+            with qr.energy_units("1/cm"):
+                for a in range(N):
+                    for b_ in range(a + 1, N):
+                        agg.set_resonance_coupling(a, b_, float(J2[a, b_]))
+            agg.rebuild(mult=case["mult"])
+            H4 = numpy.array(agg.get_Hamiltonian().data, dtype=float)
+            D4 = numpy.array(agg.get_TransitionDipoleMoment().data, dtype=float)
+            sigs4 = [tuple(i for i, x in enumerate(s_) if x) for s_ in agg.elsigs]
+        ctx.require("band-order", sigs4 == sigs, dict(det, what="state order changed by rebuild"))
+        st4, Href4, Dref4 = frenkel_model([U.e_to_int(e, "1/cm") for e in E2], J2 * U.E_FAC["1/cm"], dip2, mult)
+        ctx.check("hamiltonian==frenkel", float(numpy.max(numpy.abs(H4 - Href4[numpy.ix_(idx, idx)]))), tolH * 1.2,
+                  dict(det, what="rebuilt after the molecules were changed", route=route))
+        ctx.check("dipole==frenkel", float(numpy.max(numpy.abs(D4 - Dref4[numpy.ix_(idx, idx)]))), 1e-12 * float(numpy.max(numpy.abs(dip2))),
+                  dict(det, what="rebuilt after the molecules were changed", route=route))
         nzJ = bool(numpy.any(Jint != 0))
         movable = mult == 1 or any(True for a in states for b in states if len(a) == 2 and len(b) == 2 and len(set(a) & set(b)) == 1 and
                                    Jint[next(iter(set(a) - set(b))), next(iter(set(b) - set(a)))] != 0)
